@@ -392,3 +392,54 @@ def T4(inp, k):
     cl['still_connected'] = conn.state == CONNECTION_STATE.CONNECTED
     cl['old_unsent_bytes_not_resent'] = len(sm.made) == 2 and bool(Eq(sm.made[-1].peer.wire.slen(), 0))
     return Res(cl, nontrivial=cut >= 4, obs=lambda: dict(k=k, got=list(got), disc=len(disc), conns=len(conns), state=conn.state, exc=show(exc)))
+
+
+@obligation('T5', props=('C13', 'C14'), quick=[dict()], stubs=_STUBS + ('socket failure injected at a chosen call: send() -> -1 / EPIPE / ECONNRESET, recv() -> ECONNRESET / EOF (empty), SO_ERROR != 0',),
+            bounds='one established connection with one buffered outgoing frame and one incoming frame; the failure strikes the first send or the first recv (case split)')
+def T5(inp):
+    """socket failures: a failing send or recv (error return, hard socket error, end of stream, pending SO_ERROR) closes the
+    connection - buffers emptied, descriptor unsubscribed, the disconnect callback fired exactly once, no exception out of the event
+    handler, nothing delivered afterwards; EAGAIN is not a failure."""
+    codec = install(inp)
+    a, b, ca, cb, got, disc = _pair(inp, 4096)
+    kind = ('send_neg', 'send_epipe', 'send_reset', 'send_eagain', 'recv_reset', 'recv_eof', 'so_error')[inp.choice('kind', 7)]
+    codec.lengths[0] = inp.int('L0', 1, 5000)
+    codec.lengths[1] = inp.int('L1', 1, 5000)
+    import errno as _e
+
+    def hard(code):
+        e = realsocket.error()
+        e.errno = code
+        return e
+    victim = cb
+    s = b
+    if kind.startswith('send'):
+        def bad_send(buf):
+            if kind == 'send_neg':
+                return -1
+            raise hard({'send_epipe': _e.EPIPE, 'send_reset': _e.ECONNRESET, 'send_eagain': _e.EAGAIN}[kind])
+        s.send = bad_send
+        _, exc = guard(cb.send, 1)
+    else:
+        a.send_budget = 0
+        guard(ca.send, 0)                       # a frame is on the wire towards the victim
+        if kind == 'recv_reset':
+            s.recv = lambda n: (_ for _ in ()).throw(hard(_e.ECONNRESET))
+        elif kind == 'recv_eof':
+            s.recv = lambda n: Blob()
+        else:
+            s.getsockopt = lambda *a_: 111
+        _, exc = guard(getattr(cb, '_TcpConnection__processConnection'), 7, POLL_EVENT_TYPE.READ)
+    n_got = len(got)
+    _, exc2 = guard(getattr(cb, '_TcpConnection__processConnection'), 7, POLL_EVENT_TYPE.READ)
+    fatal = kind != 'send_eagain'
+    cl = {'no_exception': exc is None and exc2 is None}
+    cl['closed_iff_failure'] = (cb.state == CONNECTION_STATE.DISCONNECTED) == fatal
+    cl['disconnect_callback_once_iff_failure'] = len(disc) == (1 if fatal else 0)
+    if fatal:
+        cl['buffers_emptied'] = bool(Eq(symlen(getattr(cb, '_TcpConnection__readBuffer')), 0)) and bool(Eq(cb.getSendBufferSize(), 0))
+        cl['unsubscribed'] = 7 not in getattr(cb, '_TcpConnection__poller').subs
+        cl['nothing_delivered_after_the_failure'] = len(got) == n_got
+    else:
+        cl['eagain_keeps_the_frame_buffered'] = bool(cb.getSendBufferSize() > 0)
+    return Res(cl, nontrivial=fatal, obs=lambda: dict(kind=kind, state=cb.state, disc=len(disc), got=list(got), exc=show(exc)))
